@@ -167,10 +167,9 @@ TStep == /\ verdict = "ok" /\ l <= Len(Ev(tid))
               /\ known' = IF j.k = "" THEN known ELSE known \cup {j.k}
               /\ st' = FromLog(e.post)
               /\ pok' = ((e.k # "submit" \/ e.acc) /\ WellFormed(FromLog(e.post)) /\ PostChecks(e.post, FromLog(e.post)) = "ok")
-         \* a short spot position is outside the domain of the reference account: the trace ends there
-         /\ l' = (IF IsFlipClass(Judge(PreOf(Ev(tid)[l]), Ev(tid)[l], PokOf(Ev(tid)[l])).k)
-                     \/ \E s \in Syms : Ev(tid)[l].post.pos[s] < 0        \* (also in the lifecycle projection)
-                  THEN Len(Ev(tid)) + 1 ELSE l + 1)
+              \* a short spot position is outside the domain of the reference account: the trace ends there
+              \* (also in the lifecycle projection)
+              /\ l' = (IF IsFlipClass(j.k) \/ \E s \in Syms : e.post.pos[s] < 0 THEN Len(Ev(tid)) + 1 ELSE l + 1)
          /\ UNCHANGED <<tid, hist>>
 TSpec == TInit /\ [][TStep]_tvars
 Finished == verdict # "ok" \/ l > Len(Ev(tid))
